@@ -14,6 +14,7 @@ echo "|---|---|---|---|" >> $out
 for s in $seeds; do
   prop=${s%%-*}
   d=/verif/seeded/$s
+  git -C $wt checkout -q --detach $(git -C /repo rev-parse HEAD)   # always the latest committed tree
   if ! git -C $wt apply --check $d/patch.diff 2>/dev/null; then
     echo "| $s | $prop | patch no longer applies (the code it changed was repaired since) | |" >> $out; echo "$s n/a"; continue
   fi
